@@ -114,7 +114,8 @@ def build_hank(
             return Hank, None
 
     elif method == "cov_R":
-        # Correlations
+        # Correlations (in floating point: the products of integer-typed records overflow)
+        Y, Yref = np.asarray(Y, dtype=float), np.asarray(Yref, dtype=float)
         Ri = np.array(
             [
                 1 / (Ndat - k) * np.dot(Y[:, : Ndat - k], Yref[:, k:].T)
